@@ -33,9 +33,12 @@ HeaderOK(hd, hv) ==
      [] hd = "contentReq" -> TRUE                                     \* defined by `content`: only presence is checkable
      [] hd = "contentOpt" -> TRUE
 
-BodySchema == [type |-> "object", pk |-> <<"q", "r", "w">>,
+(* two body schemas: in the second the read-only property is required too (a response must carry it; *)
+(* only write-only properties are exempt from "required" on the response side)                       *)
+BodySchemaOf(req) == [type |-> "object", pk |-> <<"q", "r", "w">>,
                ps |-> <<TInt, [type |-> "string", readOnly |-> TRUE], [type |-> "string", writeOnly |-> TRUE]>>,
-               required |-> <<"q", "w">>]
+               required |-> (IF req = "qw" THEN <<"q", "w">> ELSE <<"q", "r", "w">>)]
+BodySchema == BodySchemaOf("qw")
 TextSchema == [type |-> "string", minLength |-> 2]
 
 Json == MT("application", "json", "")
@@ -52,8 +55,8 @@ DefAccepts(c) ==
          /\ \/ c.decl = "jsonNoSchema"
             \/ IF sel.ty = "text"
                THEN c.body.t = "str" /\ Valid(TextSchema, c.body, "asrep")
-               ELSE c.body.t # "str"        \* a text body is not JSON
-                    /\ Valid(BodySchema, c.body, IF c.excludeWO THEN "asrep_nowo" ELSE "asrep")
+               ELSE c.body.t \notin {"str", "raw"}        \* a text body / truncated text is not JSON
+                    /\ Valid(BodySchemaOf(c.req), c.body, IF c.excludeWO THEN "asrep_nowo" ELSE "asrep")
 
 Accepts(c) == IF c.part = "pick" THEN PickAccepts(c) ELSE DefAccepts(c)
 =============================================================================
